@@ -237,7 +237,7 @@ func runClassF(m *mp.Model, r *rng.R, n int, fonts text.FontConfiguration, out *
 		sub := r.Sub()
 		seed := sub.Seed()
 		lvl := i % 4
-		doc := GenClassF(sub, GenOpts{Level: lvl, Sides: i%8 >= 4, LongParent: i%5 == 3, WrapperBottom: i%10 == 6}, "")
+		doc := GenClassF(sub, GenOpts{Level: lvl, Sides: i%8 >= 4, LongParent: i%5 == 3, WrapperBottom: i%10 == 6, ParaBottom: i%10 == 8}, "")
 		if err := classFCase(m, doc, seed, fonts, out, i%5 == 0); err != nil {
 			return err
 		}
